@@ -1897,6 +1897,18 @@ def parse_attrs(node: WikiNode, attrs: str) -> None:
         node.attrs[name] = value
 
 
+def parse_tag_attrs(ctx: "Wtp", node: WikiNode, attrs: str) -> None:
+    """Parses the attributes of an HTML-like start tag.  The tag token is
+    raw text that has not been through text_fn(): templates, links, nowiki
+    etc. inside it are still magic characters, which must not end up in the
+    parse tree, so the original text is put back for them."""
+    parse_attrs(node, attrs)
+    node.attrs = {
+        ctx._finalize_expand(k): ctx._finalize_expand(v)
+        for k, v in node.attrs.items()
+    }
+
+
 def tag_fn(ctx: "Wtp", token: str) -> None:
     """Handler function for tokens that look like HTML tags and their end
     tags.  This includes various built-in tags that aren't actually
@@ -1995,7 +2007,7 @@ def tag_fn(ctx: "Wtp", token: str) -> None:
         # Handle <pre> start tag
         if name == "pre":
             node = _parser_push(ctx, NodeKind.PRE)
-            parse_attrs(node, attrs)
+            parse_tag_attrs(ctx, node, attrs)
             if also_end:
                 _parser_pop(ctx, False)
             else:
@@ -2039,7 +2051,7 @@ def tag_fn(ctx: "Wtp", token: str) -> None:
         # Handle other start tag.  We push HTML tags as HTML nodes.
         node = _parser_push(ctx, NodeKind.HTML)
         node.sarg = name
-        parse_attrs(node, attrs)
+        parse_tag_attrs(ctx, node, attrs)
 
         # If the tag contains a trailing slash or it is an empty tag,
         # close it immediately.
